@@ -5,6 +5,7 @@ import (
 	"math"
 	"math/rand"
 	"os"
+	"strconv"
 	"strings"
 	"time"
 )
@@ -421,6 +422,15 @@ func (g *Gen) elem() Value {
 			return VBad()
 		}
 		return VInt(g.pick(3))
+	case 2:
+		// members given as Go bools and floats: stored under their canonical text ("1", "2500000")
+		if g.chance(0.4) {
+			return VBool(g.chance(0.5))
+		}
+		if g.chance(0.5) {
+			return VFloat([]float64{2500000, 0.00001, 1.5, 1e21, -0.5}[g.pick(5)])
+		}
+		return VStr(e)
 	default:
 		return VStr(e)
 	}
@@ -648,11 +658,28 @@ func (g *Gen) zsetOp() *Op {
 		var items []ZV
 		for i := 0; i < n; i++ {
 			m := g.memberP[g.pick(4)]
+			v := VStr(m)
+			if g.chance(0.2) {
+				// a member given as a Go bool, float or int: stored under its canonical text
+				switch g.pick(3) {
+				case 0:
+					v = VBool(g.chance(0.5))
+					m = map[bool]string{true: "1", false: "0"}[v.Go.(bool)]
+				case 1:
+					f := []float64{2500000, 0.00001, 1.5, 1e21}[g.pick(4)]
+					v = VFloat(f)
+					m = strconv.FormatFloat(f, 'f', -1, 64)
+				default:
+					n := g.pick(3)
+					v = VInt(n)
+					m = strconv.Itoa(n)
+				}
+			}
 			if seen[m] {
 				continue
 			}
 			seen[m] = true
-			items = append(items, ZV{VStr(m), g.score()})
+			items = append(items, ZV{v, g.score()})
 		}
 		return ZAddMany(k, items...)
 	case 6:
@@ -715,6 +742,11 @@ var scanCases = []struct {
 	{"tag:*", []string{"tag:\xf0\x9f\x98\x80", "tag:\xff", "tag:a", "tag:", "tag:\xef\xbf\xbf\xf0\x9f\x98\x80"}, []string{"tag", "tah:"}},
 	{"tag:[^a-z]*", []string{"tag:\xf0\x9f\x98\x80x", "tag:1"}, []string{"tag:a", "tag:"}},
 	{"t\xc3\xa9*", []string{"t\xc3\xa9x", "t\xc3\xa9"}, []string{"te", "t\xc3"}},
+	// patterns without a star over names of several bytes per character
+	{"?", []string{"\xc3\xa9", "a", "\xe6\x97\xa5"}, []string{"ab", ""}},
+	{"??", []string{"\xc3\xa9a", "\xe6\x97\xa5\xe6\x9c\xac", "ab"}, []string{"a", "abc"}},
+	{"\xc3\xa9", []string{"\xc3\xa9"}, []string{"e", "\xc3"}},
+	{"t?", []string{"t\xc3\xa9", "ta"}, []string{"t", "tab"}},
 }
 
 // scanBurst fills one collection with more elements than a default page holds (10), the ones the
